@@ -39,8 +39,9 @@ func runC09(c *Ctx) {
 	c.Rule("C09.R4", "client count incremented before connecting is decremented whenever no client is handed out", 2)
 	c.Rule("C09.R5", "stream destroy listeners run once", 1)
 	c.Rule("C09.R6", "no connection is closed while the pool mutex is held (the synchronous close handler takes the same mutex)", 3)
-	c.Rule("C09.R7", "a client stream is removed from its connection's stream table before its listeners are notified", 1)
+	c.Rule("C09.R7", "a client stream is removed from its connection's stream table (HTTP/1: its single slot) before its listeners are notified", 3)
 	defer c09UnregisterBeforeNotify(c)
+	defer c09SlotClearedBeforeReceive(c)
 	c.Rule("C09.R8", "a client stream is reset only with a reason for which the pool closes the connection, or where the connection is known to be closed", 6)
 	defer c09ResetCloses(c, "C09.R8")
 	defer c09CloseHandlerUnconditional(c)
